@@ -13,7 +13,32 @@
    Nothing but statements lives in this file. *)
 From Coq Require Import ZArith List Bool Permutation.
 From VV Require Import Base.F64 Fitness.F64Order Fitness.FitnessDefs Fitness.FitnessProofs.
+From VV Require Import Fitness.FitnessSrc Gen.FitnessOps Fitness.FitnessSrcProofs.
 Import ListNotations.
+
+(* ---- TIE BY REGENERATION.  Gen/FitnessOps.v is rewritten from fitness.tcc and
+   model_measurements.h on every run: [op_defs] says how the source derives each
+   relational operator (std algorithm + comparator, or another operator with
+   which argument order under which negation), [dominating_def] the flag, bound
+   and per-component statement of dominating(), [mm_ge_def] the conjunction in
+   model_measurements::operator>=.  [src_rel], [src_dominating], [src_mm_ge]
+   evaluate these descriptions (Fitness/FitnessSrc.v).  They coincide with the
+   model functions on ALL arguments, so every theorem below is about the
+   operators as the source defines them now. *)
+Theorem C18_source_definitions_are_the_model : forall a b l r,
+  src_rel OpLt a b = Some (lt_lex a b) /\ src_rel OpEq a b = Some (eq_vec a b) /\
+  src_rel OpGt a b = Some (gt a b) /\ src_rel OpGe a b = Some (ge a b) /\
+  src_rel OpLe a b = Some (le a b) /\ src_rel OpNe a b = Some (ne a b) /\
+  src_dominating a b = Some (dominating a b) /\ src_mm_ge l r = Some (mm_ge l r).
+Proof. exact source_definitions_are_the_model. Qed.
+Print Assumptions C18_source_definitions_are_the_model.
+
+Theorem C18_source_trichotomy : forall a b, nonan_vec a -> nonan_vec b ->
+  exists l e g, src_rel OpLt a b = Some l /\ src_rel OpEq a b = Some e /\ src_rel OpGt a b = Some g /\
+    ((l = true /\ e = false /\ g = false) \/ (l = false /\ e = true /\ g = false) \/
+     (l = false /\ e = false /\ g = true)).
+Proof. exact source_trichotomy. Qed.
+Print Assumptions C18_source_trichotomy.
 
 (* ---- the comparison of doubles is the comparison of integer keys *)
 Theorem C18_double_order_embeds_in_Z : forall x y, nonan x -> nonan y ->
